@@ -184,6 +184,7 @@ func zzC13_kmac(kl, cl, ol, l0, l1, l2 int) {
 	want := refKMAC128(key, cust, msg, ol)
 	// ComputeHash is independent of anything written before, and leaves the stream untouched
 	_, _ = h.Write(junk)
+	_, _ = h.Write(nil) // (a zero-length write changes nothing)
 	assertEq(h.ComputeHash(msg), want, "KMAC ComputeHash = SP 800-185 KMAC128")
 	assertEq(h.SumHash(), refKMAC128(key, cust, junk, ol), "SumHash after ComputeHash still sees exactly the written stream")
 	h.Reset()
@@ -196,6 +197,7 @@ func zzC13_kmac(kl, cl, ol, l0, l1, l2 int) {
 	// and ComputeHash stays independent of the stream
 	h.Reset()
 	_, _ = h.Write(m2)
+	_, _ = h.Write([]byte{})
 	assertEq(h.ComputeHash(m1), refKMAC128(key, cust, m1, ol), "ComputeHash after Reset and Write is the MAC of its argument only")
 	assertEq(h.SumHash(), refKMAC128(key, cust, m2, ol), "second Reset cycle: SumHash sees exactly what was written after the Reset")
 	h.Reset()
